@@ -6,20 +6,73 @@ import os
 
 HERE = os.path.dirname(os.path.dirname(os.path.abspath(__file__)))
 
+SA = 'static analysis: '
+T_INTERP = SA + 'abstract interpretation over rustc MIR (value sets, bit provenance, path-sensitive) against an independent oracle table'
+T_AUTO = SA + 'typestate automaton extracted from MIR by abstract interpretation, synchronous product with a reference automaton (bisimulation by construction)'
+NOTE = ('Trusted: rustc front end / MIR lowering, builtin derives, core primitive semantics as modelled (hmsa/models.py), the analyser itself '
+        '(validated both ways by selftest/ and seeded/). ')
+
+
+def c(cat, text, ref, note, tech):
+    return {'category': cat, 'text': text, 'design_ref': 'DESIGN.md section 4 / ' + ref, 'note': NOTE + note, 'technique': tech}
+
+
 CLAIMED = {
-    'C04': {
-        'category': 'proof',
-        'text': 'Closed-writer proof of a data-structure invariant: the tuple field of each newtype is private and no API hands out a '
-                'mutable reference; every MIR construction site and every call of an unsafe constructor, in every feature '
-                'configuration (std, no_std, serde), is shown by value-set abstract interpretation to receive an operand in range; '
-                'the From/TryFrom impl table passes type-range arithmetic; outcome summaries of new/TryFrom/FromStr show rejection '
-                'exactly of out-of-range input. All obligations must be discharged; the proof is modulo the trusted base listed.',
-        'design_ref': 'DESIGN.md section 4 / C04',
-        'note': 'Trusted: rustc MIR lowering, core primitive semantics as modelled, core integer parser returns a value of the '
-                'primitive type. Assumes newtype values entering from outside satisfy the invariant (assume/guarantee, closed by the '
-                'construction-site audit itself).',
-        'technique': 'static analysis: abstract interpretation (value sets) over rustc MIR per feature configuration + impl-table range arithmetic + rustc unexpected_cfgs lint',
-    },
+    'C01': c('other', 'Decides every clause for RawShortMessage, StructuredShortMessage and an abstract factory inheriting the defaults: outcome summary '
+             'of from_bytes over all status bytes, token identity of raw bytes, canonical bytes per status class, identity of value round trips for '
+             'all 33 value shapes, codec round trips. All inputs are covered through a finite class partition; third-party from_bytes_unchecked bodies are outside the source.',
+             'C01', 'Assumes 7-bit data bytes and in-range newtype fields (C04).', T_INTERP),
+    'C02': c('other', 'Every default method of ShortMessage is interpreted for an abstract implementor per spec class and compared with the MIDI 1.0 oracle '
+             '(uniformity inside a class is part of the obligation); type tables per enum variant and over all 256 bytes.',
+             'C02', 'Assumes valid status byte and 7-bit data bytes.', T_INTERP),
+    'C03': c('other', 'Override inventory with an equivalence obligation per override; accessor oracle evaluated on the structured form; taint analysis '
+             '(non-interference) of information-free bytes over all default methods; token identity of converted bytes.',
+             'C03', 'An out-of-repository implementor overriding defaults inconsistently is not decidable from the source.', SA + 'override inventory + abstract interpretation + taint (non-interference) analysis'),
+    'C04': c('proof', 'Closed-writer proof of a data-structure invariant: private field, no mutable access path, every construction site and unsafe-constructor '
+             'call site in every feature configuration receives an in-range operand (value-set abstract interpretation), From/TryFrom impl table passes '
+             'type-range arithmetic, new/TryFrom/FromStr reject exactly out-of-range input, no impossible cfg.',
+             'C04', 'Assume/guarantee on newtype values entering from outside, closed by the audit itself; core parser returns a value of the primitive type.',
+             SA + 'closed-writer audit: abstract interpretation (value sets) of all MIR bodies per feature configuration + impl-table range arithmetic + rustc unexpected_cfgs lint'),
+    'C05': c('other', 'Cast rule at every `as` of the conversion impls, value identity of all From/TryFrom impls by outcome summary, builtin-derive audit, '
+             'MIN/MAX/default evaluation, delegation shape of Display/FromStr. The numeral grammar and printed text belong to core (trusted).',
+             'C05', 'core integer parser / Display are trusted.', SA + 'cast rule over abstract value sets + outcome summaries + derive / delegation audit'),
+    'C06': c('other', 'Each constructor interpreted for an abstract factory; bytes reaching from_bytes_unchecked compared bit by bit with the constructor oracle; '
+             'generic constructors per message type; shorthands by outcome summary.',
+             'C06', 'Accessor round trip follows by composition with C02/C01 (argued, same byte-level oracle).', T_INTERP),
+    'C07': c('other', 'Panic set of new, accessors, encoder output by bit provenance, and composition of the encoder output with the extracted scanner '
+             'transition function from every reachable typestate.',
+             'C07', 'Relies on the C08 fixpoint for the reachable typestates.', SA + 'abstract interpretation + composition of extracted automaton rows'),
+    'C08': c('model_checking', 'Exhaustive product of the extracted per-channel transition function with the reference automaton O2 over the abstract '
+             '(value-independent) state space; induction over history length.',
+             'C08', 'Channel routing is C15; messages satisfy the ShortMessage contract.', T_AUTO),
+    'C09': c('other', 'Constructors, accessors, the 16 encoder cases for an abstract factory against the MIDI 1.0 table, array conversion, struct invariant at every construction site.',
+             'C09', 'Factory byte placement is C06.', T_INTERP),
+    'C10': c('other', 'Composition of the encoder table with the extracted (N)RPN scanner transition function from every reachable typestate, running forms by typestate closure.',
+             'C10', 'Relies on the C11 fixpoint and the C09 encoder table.', SA + 'abstract interpretation + composition of extracted automaton rows'),
+    'C11': c('model_checking', 'Exhaustive product of the extracted per-channel (N)RPN transition function with the reference automaton O3.',
+             'C11', 'Channel routing is C15.', T_AUTO),
+    'C12': c('other', 'Product with O4 on all feed cells plus composition of every documented unit form on the extracted function from every reachable typestate.',
+             'C12', 'The clock is an uninterpreted token; real-clock behaviour is not decided.', T_AUTO + '; unit forms by composition of rows'),
+    'C13': c('other', 'Poll columns of the product (split on the recorded predicate elapsed(arrival) < timeout), identity of the store on non-firing polls, '
+             'taint of clock tokens through feed, freshness of the stored stamp, timeout distribution.',
+             'C13', 'Instant/Duration semantics trusted; real-clock behaviour not decided.', T_AUTO + ' + clock-token taint analysis'),
+    'C14': c('other', 'Origin-token accounting (fixpoint over the extracted rows) checked row by row against provenance / completeness / linearity / no-loss / shape clauses.',
+             'C14', 'On top of the O4 product.', SA + 'origin-token dataflow over the extracted automaton + product with the reference automaton'),
+    'C15': c('proof', 'Ownership / non-interference proof: storage-shape audit, one borrowed element whose index term is the channel by bit provenance, '
+             'nothing for system messages, result passed through, reported channel on every row, identical start.',
+             'C15', 'Rust aliasing rules; no unsafe code in the crate (checked).', SA + 'ownership / non-interference: storage-shape audit + abstract interpretation of the outer methods with the element method opaque'),
+    'C16': c('proof', 'Identity rows of the three extracted automata (structural identity of the abstract store), predicate true-sets over 0..127, constant '
+             'table, sibling cross-check dispatch set = predicate true-set.',
+             'C16', 'Messages satisfy the ShortMessage contract.', T_AUTO + '; predicate outcome summaries; sibling cross-check'),
+    'C17': c('proof', 'Reset rows lead to initial pairs; outer reset interpreted from an unconstrained scanner (loop unrolled) and compared field by field; '
+             'new()/default() structurally equal; plain-data and derive audits.',
+             'C17', 'Duration::default() is zero (trusted).', SA + 'abstract interpretation (structural store comparison) + automaton reset rows + plain-data audit'),
+    'C18': c('other', 'Allocation: effect analysis (proof) - no allocator in the no_std build, no heap type and no allocating callee in the std build. Panics: every '
+             'panic-capable terminator enumerated and discharged as documented or dead under the validity assumptions / on reachable typestates.',
+             'C18', 'core/std internals trusted; panic paths may allocate (excluded).', SA + 'effect analysis over MIR (types, callee crates) + panic-site enumeration discharged by abstract interpretation'),
+    'C19': c('other', 'Construction-site audit of the derive-generated Deserialize bodies (serde configuration); impl inventory; unsafe-construct scan. '
+             'The round-trip clause depends on serde at run time: only its shape condition is checked.',
+             'C19', 'serde contract for try_from trusted (generated body still audited).', SA + 'construction-site audit by abstract interpretation of derive-generated MIR (serde configuration)'),
 }
 PENDING_REASON = 'check under construction in this round (static-analysis rule not armed yet); will be claimed once built'
 NOT_APPLICABLE = {}
